@@ -8,6 +8,7 @@ mod espec;
 mod formula;
 mod peak;
 mod poisson;
+mod render;
 mod table;
 mod util;
 
@@ -25,6 +26,7 @@ fn main() {
         "brain" => brain::run(&rest),
         "conv" => conv::run(&rest),
         "espec" => espec::run(&rest),
+        "render" => render::run(&rest),
         "formula" => formula::run(&rest),
         "poisson" => poisson::run(&rest),
         _ => {
